@@ -32,6 +32,10 @@ fn os_tid() -> Option<u64> {
     l.file_name()?.to_str()?.parse().ok()
 }
 
+static STALL: std::sync::atomic::AtomicBool = std::sync::atomic::AtomicBool::new(false);
+/// Hold (true) / release (false) every reloader thread at its next wake-up (at most 2 s).
+pub fn stall(on: bool) { STALL.store(on, std::sync::atomic::Ordering::SeqCst); }
+
 fn yield_hook(tag: &'static str) {
     match tag {
         "hr-thread-before-ready" => {
@@ -39,7 +43,12 @@ fn yield_hook(tag: &'static str) {
             { let mut m = HR_OS_TID.lock().unwrap_or_else(|e| e.into_inner()); if !m.contains_key(&t) { if let Some(o) = os_tid() { m.insert(t, o); } } }
             HR_THREADS.lock().unwrap_or_else(|e| e.into_inner()).insert(t, true);
         }
-        "hr-thread-after-ready" => { HR_THREADS.lock().unwrap_or_else(|e| e.into_inner()).insert(tid(), false); }
+        "hr-thread-after-ready" => {
+            HR_THREADS.lock().unwrap_or_else(|e| e.into_inner()).insert(tid(), false);
+            // `stall(true)`: hold the reloader thread right after it was woken, so that messages and events pile up behind it
+            let t0 = std::time::Instant::now();
+            while STALL.load(std::sync::atomic::Ordering::SeqCst) && t0.elapsed().as_millis() < 2000 { std::thread::yield_now(); }
+        }
         _ => {}
     }
 }
